@@ -8,9 +8,14 @@ open WinTree (Id Win Req Change Tree)
 
 /-! ## changes of a window's record that keep its pen -/
 
-theorem SInv.setX_same {st : St} (inv : SInv st) (i : Nat) (x : WinX) (hp : x.pen = (getX st i).pen) :
-    SInv (setX st i x) :=
-  inv.of_wx rfl rfl rfl rfl (setX_map_pen x hp)
+theorem SInv.setX_same {st : St} (inv : SInv st) (i : Nat) (x : WinX) (hp : x.pen = (getX st i).pen)
+    (ha : x.appRefs = (getX st i).appRefs) : SInv (setX st i x) := by
+  refine ⟨inv.toSInvB.of_wx rfl rfl rfl rfl rfl (setX_map_pen x hp), ?_⟩
+  intro j w hl
+  rw [getX_setX]
+  split
+  · rename_i h; rw [ha, h.1]; exact inv.wref j w hl
+  · exact inv.wref j w hl
 
 /-! ## pens -/
 
@@ -23,12 +28,22 @@ theorem pens_size_lt {st : St} {k : Nat} {p : Obj} (h : st.pens[k]? = some p) : 
 /-- A change of one pen object that keeps `refcount - appRefs` and liveness consistent. -/
 theorem SInv.set_pen {st : St} (inv : SInv st) {k : Nat} {p p' : Obj} (hk : st.pens[k]? = some p)
     (h1 : p'.freed = false → p.freed = false ∧ p'.refcount - (p'.appRefs : Int) = p.refcount - (p.appRefs : Int))
-    (h2 : p'.freed = true → holders st k = 0) :
+    (h2 : p'.freed = true → holders st k = 0) (h3 : p'.freed = false → 1 ≤ p'.refcount) :
     SInv { st with pens := st.pens.setIfInBounds k p' } := by
   have hlt := pens_size_lt hk
   have hh : ∀ (j : Nat), holders { st with pens := st.pens.setIfInBounds k p' } j = holders st j := fun j => holders_congr rfl j
-  refine ⟨inv.tinv, inv.wx_size, inv.rc, List.nodup_nil, by intro i hi; simp at hi, inv.dead_pen, ⟨?_, ?_⟩,
-    inv.term_held, inv.term_free, inv.term_dead, inv.rb_rc⟩
+  refine ⟨⟨inv.tinv, inv.wx_size, inv.rc, List.nodup_nil, by intro i hi; simp at hi, inv.dead_pen, ⟨?_, ?_, ?_⟩,
+    inv.term_held, inv.term_free, inv.term_dead, inv.simple⟩, inv.wref⟩
+  rotate_left 2
+  · intro j q hq hfq
+    simp only [Array.getElem?_setIfInBounds] at hq
+    by_cases hkj : k = j
+    · subst hkj
+      simp only [if_true, hlt, Option.some.injEq] at hq
+      subst hq
+      exact h3 hfq
+    · simp only [hkj, if_false] at hq
+      exact inv.pens.pos j q hq hfq
   · intro j q hq
     rw [hh]
     simp only [Array.getElem?_setIfInBounds] at hq
@@ -70,11 +85,12 @@ theorem pref_ok {st : St} (inv : SInv st) {k : Nat} (h : heldP st k = true) :
   rw [Array.setIfInBounds_setIfInBounds]
   exact inv.set_pen (p' := { refcount := p.refcount + 1, appRefs := p.appRefs + 1 }) hp
     (fun _ => ⟨hf, by show p.refcount + 1 - ((p.appRefs + 1 : Nat) : Int) = _; omega⟩) (fun h' => by cases h')
+    (fun _ => by have := inv.pens.pos k p hp hf; show 1 ≤ p.refcount + 1; omega)
 
 /-- `tickit_pen_unref` by the application. -/
 theorem punref_ok {st : St} (inv : SInv st) {k : Nat} (h : heldP st k = true) :
-    ∃ st', penUnref { st with pens := st.pens.setIfInBounds k { (st.pens[k]?.getD {}) with appRefs := (st.pens[k]?.getD {}).appRefs - 1 } } k = .ok st' ∧
-      SInv st' := by
+    ∃ st' p p', penUnref { st with pens := st.pens.setIfInBounds k { (st.pens[k]?.getD {}) with appRefs := (st.pens[k]?.getD {}).appRefs - 1 } } k = .ok st' ∧
+      SInv st' ∧ st.pens[k]? = some p ∧ st' = { st with pens := st.pens.setIfInBounds k p' } ∧ p'.appRefs + 1 = p.appRefs := by
   obtain ⟨p, hp, hf, hpos⟩ := heldP_spec h
   have hlt := pens_size_lt hp
   have hrc := (inv.pens.rc k p hp).1 hf
@@ -82,7 +98,8 @@ theorem punref_ok {st : St} (inv : SInv st) {k : Nat} (h : heldP st k = true) :
   simp only [hp, Option.getD_some, Array.getElem?_setIfInBounds, if_true, hlt, hf, Bool.false_eq_true, if_false]
   have hge : ¬ p.refcount < 1 := by omega
   simp only [hge, if_false, pure_ok]
-  refine ⟨_, rfl, ?_⟩
+  refine ⟨_, p, ({ refcount := p.refcount, appRefs := p.appRefs - 1 } : Obj).dropped, rfl, ?_, rfl,
+    by rw [Array.setIfInBounds_setIfInBounds], by simp only [dropped_appRefs]; omega⟩
   rw [Array.setIfInBounds_setIfInBounds]
   exact inv.set_pen (p' := ({ refcount := p.refcount, appRefs := p.appRefs - 1 } : Obj).dropped) hp
     (fun _ => ⟨hf, by simp only [dropped_refcount, dropped_appRefs]; omega⟩)
@@ -90,12 +107,27 @@ theorem punref_ok {st : St} (inv : SInv st) {k : Nat} (h : heldP st k = true) :
       simp only [dropped_freed, decide_eq_true_eq] at h'
       have : (holders st k : Int) = 0 := by omega
       omega)
+    (fun h' => by
+      simp only [dropped_freed, decide_eq_false_iff_not] at h'
+      simp only [dropped_refcount]
+      omega)
 
 /-- `tickit_pen_new`. -/
 theorem pen_new_ok {st : St} (inv : SInv st) : SInv { st with pens := st.pens.push {} } := by
   have hh : ∀ (j : Nat), holders { st with pens := st.pens.push {} } j = holders st j := fun j => holders_congr rfl j
-  refine ⟨inv.tinv, inv.wx_size, inv.rc, List.nodup_nil, by intro i hi; simp at hi, inv.dead_pen, ⟨?_, ?_⟩,
-    inv.term_held, inv.term_free, inv.term_dead, inv.rb_rc⟩
+  refine ⟨⟨inv.tinv, inv.wx_size, inv.rc, List.nodup_nil, by intro i hi; simp at hi, inv.dead_pen, ⟨?_, ?_, ?_⟩,
+    inv.term_held, inv.term_free, inv.term_dead, inv.simple⟩, inv.wref⟩
+  rotate_left 2
+  · intro j q hq hfq
+    simp only [Array.getElem?_push] at hq
+    by_cases hj : j = st.pens.size
+    · subst hj
+      simp only [if_true, Option.some.injEq] at hq
+      subst hq
+      show (1 : Int) ≤ 1
+      omega
+    · simp only [hj, if_false] at hq
+      exact inv.pens.pos j q hq hfq
   · intro j q hq
     rw [hh]
     simp only [Array.getElem?_push] at hq
@@ -125,12 +157,12 @@ open WinTree (Id Win Req Change Tree)
 /-- `tickit_pen_unref` on a live pen with a positive count: what changes. -/
 theorem penUnref_spec {st : St} {k : Nat} {p : Obj} (hp : st.pens[k]? = some p) (hf : p.freed = false) (hr : 1 ≤ p.refcount) :
     ∃ st1, penUnref st k = .ok st1 ∧ st1.tree = st.tree ∧ st1.wx = st.wx ∧ st1.term = st.term ∧ st1.rbs = st.rbs ∧
-      st1.pens[k]? = some p.dropped ∧ ∀ (j : Nat), j ≠ k → st1.pens[j]? = st.pens[j]? := by
+      st1.strs = st.strs ∧ st1.pens[k]? = some p.dropped ∧ ∀ (j : Nat), j ≠ k → st1.pens[j]? = st.pens[j]? := by
   unfold penUnref
   simp only [hp, hf, Bool.false_eq_true, if_false]
   have hge : ¬ p.refcount < 1 := by omega
   simp only [hge, if_false, pure_ok]
-  refine ⟨_, rfl, rfl, rfl, rfl, rfl, ?_, ?_⟩
+  refine ⟨_, rfl, rfl, rfl, rfl, rfl, rfl, ?_, ?_⟩
   · simp [pens_size_lt hp]
   · intro j hj
     simp only [Array.getElem?_setIfInBounds]
@@ -140,11 +172,11 @@ theorem penUnref_spec {st : St} {k : Nat} {p : Obj} (hp : st.pens[k]? = some p) 
 /-- `tickit_pen_ref` on a live pen: what changes. -/
 theorem penRef_spec {st : St} {k : Nat} {p : Obj} (hp : st.pens[k]? = some p) (hf : p.freed = false) :
     ∃ st1 p1, penRef st k = .ok st1 ∧ st1.tree = st.tree ∧ st1.wx = st.wx ∧ st1.term = st.term ∧ st1.rbs = st.rbs ∧
-      st1.pens[k]? = some p1 ∧ p1.freed = false ∧ p1.appRefs = p.appRefs ∧ p1.refcount = p.refcount + 1 ∧
+      st1.strs = st.strs ∧ st1.pens[k]? = some p1 ∧ p1.freed = false ∧ p1.appRefs = p.appRefs ∧ p1.refcount = p.refcount + 1 ∧
       ∀ (j : Nat), j ≠ k → st1.pens[j]? = st.pens[j]? := by
   unfold penRef
   simp only [hp, hf, Bool.false_eq_true, if_false, pure_ok]
-  refine ⟨_, { p with refcount := p.refcount + 1 }, rfl, rfl, rfl, rfl, rfl, ?_, hf, rfl, rfl, ?_⟩
+  refine ⟨_, { p with refcount := p.refcount + 1 }, rfl, rfl, rfl, rfl, rfl, rfl, ?_, hf, rfl, rfl, ?_⟩
   · simp [pens_size_lt hp, hf]
   · intro j hj
     simp only [Array.getElem?_setIfInBounds]
@@ -171,7 +203,7 @@ theorem dropWinPen_keeps_held {st : St} (P : PensOk st) {i : Nat} (hi : i < st.w
         | false => rfl
         | true => have := hdead hf0; omega
       have hrc := hlive hf0
-      obtain ⟨st1', hu, _, _, _, _, hk0, hother⟩ := penUnref_spec hpk hf0 (by omega)
+      obtain ⟨st1', hu, _, _, _, _, _, hk0, hother⟩ := penUnref_spec hpk hf0 (by omega)
       rw [hu] at hd
       simp only [Out.ok.injEq] at hd
       subst hd
@@ -189,7 +221,7 @@ theorem assignPen_ok {st : St} (inv : SInv st) {win : Nat} {ww : Win} (hw : Live
     (hnull : (getX st win).pen = .null) {k : Nat} {p : Obj} (hp : st.pens[k]? = some p) (hf : p.freed = false) :
     ∃ st', assignPen st win k = .ok st' ∧ SInv st' := by
   have hwin : win < st.wx.size := by rw [inv.wx_size]; exact hw.lt
-  obtain ⟨st1, p1, href, ht1, hwx1, htm1, hrb1, hk1, hf1, ha1, hr1, hother⟩ := penRef_spec hp hf
+  obtain ⟨st1, p1, href, ht1, hwx1, htm1, hrb1, hstr1, hk1, hf1, ha1, hr1, hother⟩ := penRef_spec hp hf
   unfold assignPen
   simp only [href, bind_ok, pure_ok]
   refine ⟨_, rfl, ?_⟩
@@ -208,12 +240,22 @@ theorem assignPen_ok {st : St} (inv : SInv st) {win : Nat} {ww : Win} (hw : Live
     intro j hj
     rw [getX_setX_ne _ (Ne.symm hj)]
     unfold getX; rw [hwx1]
-  refine ⟨by simp only [setX_tree, ht1]; exact inv.tinv, by simp only [setX_size, setX_tree, ht1, hwx1]; exact inv.wx_size,
-    by simp only [setX_tree, ht1]; exact inv.rc, List.nodup_nil, by intro i hi; simp at hi, ?_, ⟨?_, ?_⟩,
+  have happ : ∀ (j : Nat), (getX (setX st1 win { getX st1 win with pen := .app k }) j).appRefs = (getX st j).appRefs := by
+    intro j
+    by_cases hj : j = win
+    · subst hj; rw [getX_setX_self _ hwin1]; show (getX st1 j).appRefs = _; rw [hgx1]
+    · rw [hgx j hj]
+  refine ⟨⟨by simp only [setX_tree, ht1]; exact inv.tinv, by simp only [setX_size, setX_tree, ht1, hwx1]; exact inv.wx_size,
+    by simp only [setX_tree, ht1]; exact inv.rc, List.nodup_nil, by intro i hi; simp at hi, ?_, ⟨?_, ?_, ?_⟩,
     by simp only [setX_term, setX_tree, htm1, ht1]; exact inv.term_held,
     by simp only [setX_term, setX_tree, htm1, ht1]; exact inv.term_free,
     by simp only [setX_term, setX_tree, htm1, ht1]; exact inv.term_dead,
-    by simp only [setX, hrb1]; exact inv.rb_rc⟩
+    ⟨by simp only [setX, hrb1]; exact inv.simple.1, by simp only [setX, hstr1]; exact inv.simple.2⟩⟩, ?_⟩
+  rotate_right
+  · intro i w hl
+    rw [happ i]
+    simp only [setX_tree, ht1] at hl
+    exact inv.wref i w hl
   · intro i w hwi hfi _
     simp only [setX_tree, ht1] at hwi
     have hiw : i ≠ win := by
@@ -243,6 +285,15 @@ theorem assignPen_ok {st : St} (inv : SInv st) {win : Nat} {ww : Win} (hw : Live
     · rw [hother j (Ne.symm hkj)] at hj
       simp only [hkj, if_false, Nat.add_zero]
       exact inv.pens.ex j hj
+  · intro j q hq hfq
+    simp only [setX_pens] at hq
+    by_cases hkj : k = j
+    · subst hkj
+      rw [hk1] at hq; cases hq
+      have := inv.pens.pos k p hp hf
+      rw [hr1]; omega
+    · rw [hother j (Ne.symm hkj)] at hq
+      exact inv.pens.pos j q hq hfq
 
 /-- `tickit_window_set_pen`. -/
 theorem setPen_ok {st : St} (inv : SInv st) {win : Nat} {ww : Win} (hw : LiveW st.tree win ww) (pen : Option Nat)
@@ -251,7 +302,7 @@ theorem setPen_ok {st : St} (inv : SInv st) {win : Nat} {ww : Win} (hw : LiveW s
   have hwin : win < st.wx.size := by rw [inv.wx_size]; exact hw.lt
   unfold setPen
   simp only [getW, get_live hw, bind_ok]
-  obtain ⟨st1, hdrop, ht1, hwx1, htm1, hrb1, _, P2⟩ := release_pen inv.pens hwin
+  obtain ⟨st1, hdrop, ht1, hwx1, htm1, hrb1, hstr1, P2⟩ := release_pen inv.pens hwin
   simp only [hdrop, bind_ok]
   have hwin1 : win < st1.wx.size := by rw [hwx1]; exact hwin
   have hgx : ∀ (j : Nat), j ≠ win → getX (setX st1 win { getX st1 win with pen := .null }) j = getX st j := by
@@ -259,12 +310,26 @@ theorem setPen_ok {st : St} (inv : SInv st) {win : Nat} {ww : Win} (hw : LiveW s
     rw [getX_setX_ne _ (Ne.symm hj)]
     unfold getX; rw [hwx1]
   have inv2 : SInv (setX st1 win { getX st1 win with pen := .null }) := by
-    refine ⟨by simp only [setX_tree, ht1]; exact inv.tinv, by simp only [setX_size, setX_tree, ht1, hwx1]; exact inv.wx_size,
+    have happ : ∀ (j : Nat), (getX (setX st1 win { getX st1 win with pen := .null }) j).appRefs = (getX st j).appRefs := by
+      intro j
+      by_cases hj : j = win
+      · subst hj
+        rw [getX_setX_self _ hwin1]
+        show (getX st1 j).appRefs = _
+        have : getX st1 j = getX st j := by unfold getX; rw [hwx1]
+        rw [this]
+      · rw [hgx j hj]
+    refine ⟨⟨by simp only [setX_tree, ht1]; exact inv.tinv, by simp only [setX_size, setX_tree, ht1, hwx1]; exact inv.wx_size,
       by simp only [setX_tree, ht1]; exact inv.rc, List.nodup_nil, by intro i hi; simp at hi, ?_, P2,
       by simp only [setX_term, setX_tree, htm1, ht1]; exact inv.term_held,
       by simp only [setX_term, setX_tree, htm1, ht1]; exact inv.term_free,
       by simp only [setX_term, setX_tree, htm1, ht1]; exact inv.term_dead,
-      by simp only [setX, hrb1]; exact inv.rb_rc⟩
+      ⟨by simp only [setX, hrb1]; exact inv.simple.1, by simp only [setX, hstr1]; exact inv.simple.2⟩⟩, ?_⟩
+    rotate_right
+    · intro i w hl
+      rw [happ i]
+      simp only [setX_tree, ht1] at hl
+      exact inv.wref i w hl
     intro i w hwi hfi _
     simp only [setX_tree, ht1] at hwi
     have hiw : i ≠ win := by
@@ -298,8 +363,8 @@ theorem SInv.set_term {st : St} (inv : SInv st) (tm : Obj)
     (h1 : tm.freed = false → (∃ r, LiveW st.tree 0 r) → tm.refcount = (tm.appRefs : Int) + 1)
     (h2 : tm.freed = false → (¬ ∃ r, LiveW st.tree 0 r) → tm.refcount = (tm.appRefs : Int) ∧ 1 ≤ tm.refcount)
     (h3 : tm.freed = true → ¬ ∃ r, LiveW st.tree 0 r) : SInv { st with term := tm } := by
-  refine ⟨inv.tinv, inv.wx_size, inv.rc, List.nodup_nil, by intro i hi; simp at hi, inv.dead_pen,
-    ⟨inv.pens.rc, inv.pens.ex⟩, ?_, ?_, ?_, inv.rb_rc⟩
+  refine ⟨⟨inv.tinv, inv.wx_size, inv.rc, List.nodup_nil, by intro i hi; simp at hi, inv.dead_pen,
+    ⟨inv.pens.rc, inv.pens.ex, inv.pens.pos⟩, ?_, ?_, ?_, inv.simple⟩, inv.wref⟩
   · intro hf h; exact h1 hf (by rcases h with h | h; exact h; simp at h)
   · intro hf h; exact h2 hf (fun h' => h (.inl h'))
   · intro hf h; exact h3 hf (by rcases h with h | h; exact h; simp at h)
@@ -321,7 +386,8 @@ theorem tref_ok {st : St} (inv : SInv st) (h : heldT st = true) :
 
 /-- `tickit_term_unref` by the application. -/
 theorem tunref_ok {st : St} (inv : SInv st) (h : heldT st = true) :
-    ∃ st', termUnref { st with term := { st.term with appRefs := st.term.appRefs - 1 } } = .ok st' ∧ SInv st' := by
+    ∃ st' tm, termUnref { st with term := { st.term with appRefs := st.term.appRefs - 1 } } = .ok st' ∧ SInv st' ∧
+      st' = { st with term := tm } ∧ tm.appRefs + 1 = st.term.appRefs := by
   obtain ⟨hf, hpos⟩ := heldT_spec h
   have hr1 : 1 ≤ st.term.refcount := by
     by_cases hr : ∃ r, LiveW st.tree 0 r
@@ -331,7 +397,7 @@ theorem tunref_ok {st : St} (inv : SInv st) (h : heldT st = true) :
   simp only [hf, Bool.false_eq_true, if_false]
   have hge : ¬ st.term.refcount < 1 := by omega
   simp only [hge, if_false, pure_ok]
-  refine ⟨_, rfl, ?_⟩
+  refine ⟨_, _, rfl, ?_, rfl, by simp only [dropped_appRefs]; omega⟩
   refine inv.set_term _ ?_ ?_ ?_
   · intro _ hr
     have := inv.term_held hf (.inl hr)
@@ -357,11 +423,21 @@ theorem heldB_spec {st : St} {k : Nat} (h : heldB st k = true) : ∃ b, st.rbs[k
     simp only [hb, Bool.and_eq_true, Bool.not_eq_true'] at h
     exact ⟨b, rfl, h.1⟩
 
+theorem heldB_pos {st : St} {k : Nat} {b : RBObj} (h : heldB st k = true) (hb : st.rbs[k]? = some b) : 0 < b.appRefs := by
+  unfold heldB at h
+  simp only [hb, Bool.and_eq_true, Bool.not_eq_true', decide_eq_true_eq] at h
+  exact h.2
+
+theorem SInv.set_simple {st : St} (inv : SInv st) (r : Array RBObj) (s : Array StrObj)
+    (h : SimpleOk { st with rbs := r, strs := s }) : SInv { st with rbs := r, strs := s } :=
+  ⟨⟨inv.tinv, inv.wx_size, inv.rc, List.nodup_nil, by intro i hi; simp at hi, inv.dead_pen,
+    ⟨inv.pens.rc, inv.pens.ex, inv.pens.pos⟩, inv.term_held, inv.term_free, inv.term_dead, h⟩, inv.wref⟩
+
 /-- A change of one buffer object. -/
-theorem SInv.set_rb {st : St} (inv : SInv st) (k : Nat) (b' : RBObj) (h : b'.freed = false → 1 ≤ b'.refcount) :
+theorem SInv.set_rb {st : St} (inv : SInv st) (k : Nat) (b' : RBObj)
+    (h : b'.freed = false → 1 ≤ b'.refcount ∧ b'.refcount = (b'.appRefs : Int)) :
     SInv { st with rbs := st.rbs.setIfInBounds k b' } := by
-  refine ⟨inv.tinv, inv.wx_size, inv.rc, List.nodup_nil, by intro i hi; simp at hi, inv.dead_pen,
-    ⟨inv.pens.rc, inv.pens.ex⟩, inv.term_held, inv.term_free, inv.term_dead, ?_⟩
+  refine inv.set_simple _ st.strs ⟨?_, inv.simple.2⟩
   intro j b hb hf
   simp only [Array.getElem?_setIfInBounds] at hb
   by_cases hkj : k = j
@@ -371,22 +447,51 @@ theorem SInv.set_rb {st : St} (inv : SInv st) (k : Nat) (b' : RBObj) (h : b'.fre
     · cases hb; exact h hf
     · cases hb
   · simp only [hkj, if_false] at hb
-    exact inv.rb_rc j b hb hf
+    exact inv.simple.1 j b hb hf
 
-theorem SInv.set_strs {st : St} (inv : SInv st) (s : Array StrObj) : SInv { st with strs := s } :=
-  ⟨inv.tinv, inv.wx_size, inv.rc, List.nodup_nil, by intro i hi; simp at hi, inv.dead_pen,
-    ⟨inv.pens.rc, inv.pens.ex⟩, inv.term_held, inv.term_free, inv.term_dead, inv.rb_rc⟩
+/-- A change of one string object. -/
+theorem SInv.set_str {st : St} (inv : SInv st) (k : Nat) (s' : StrObj)
+    (h : s'.freed = false → 1 ≤ s'.refcount ∧ s'.refcount = (s'.appRefs : Int)) :
+    SInv { st with strs := st.strs.setIfInBounds k s' } := by
+  refine inv.set_simple st.rbs _ ⟨inv.simple.1, ?_⟩
+  intro j b hb hf
+  simp only [Array.getElem?_setIfInBounds] at hb
+  by_cases hkj : k = j
+  · subst hkj
+    simp only [if_true] at hb
+    split at hb
+    · cases hb; exact h hf
+    · cases hb
+  · simp only [hkj, if_false] at hb
+    exact inv.simple.2 j b hb hf
+
+theorem SInv.set_penx {st : St} (inv : SInv st) (x : Array PenX) : SInv { st with penx := x } :=
+  ⟨⟨inv.tinv, inv.wx_size, inv.rc, List.nodup_nil, by intro i hi; simp at hi, inv.dead_pen,
+    ⟨inv.pens.rc, inv.pens.ex, inv.pens.pos⟩, inv.term_held, inv.term_free, inv.term_dead, inv.simple⟩, inv.wref⟩
+
+theorem heldS_spec {st : St} {k : Nat} (h : heldS st k = true) :
+    ∃ s, st.strs[k]? = some s ∧ s.freed = false ∧ 0 < s.appRefs ∧ k < st.strs.size := by
+  unfold heldS at h
+  cases hs : st.strs[k]? with
+  | none => simp [hs] at h
+  | some s =>
+    simp only [hs, Bool.and_eq_true, Bool.not_eq_true', decide_eq_true_eq] at h
+    refine ⟨s, rfl, h.1, h.2, ?_⟩
+    by_cases hlt : k < st.strs.size
+    · exact hlt
+    · have := Array.getElem?_eq_none (xs := st.strs) (Nat.le_of_not_lt hlt)
+      rw [hs] at this; cases this
 
 theorem rbUpd_ok {st : St} (inv : SInv st) (k : Nat) (f : RBObj → Out RBObj)
-    (hf : ∀ b, ∃ b', f b = .ok b' ∧ b'.freed = b.freed ∧ b'.refcount = b.refcount) :
+    (hf : ∀ b, ∃ b', f b = .ok b' ∧ b'.freed = b.freed ∧ b'.refcount = b.refcount ∧ b'.appRefs = b.appRefs) :
     ∃ st' r, rbUpd st k f = .ok (st', r) ∧ SInv st' := by
   unfold rbUpd
   by_cases hh : heldB st k = true
   · obtain ⟨b, hb, hfb⟩ := heldB_spec hh
     simp only [hh, Bool.not_true, Bool.false_eq_true, if_false, hb, Option.getD_some]
-    obtain ⟨b', hfb', h1, h2⟩ := hf b
+    obtain ⟨b', hfb', h1, h2, h3⟩ := hf b
     simp only [hfb', bind_ok, pure_ok]
-    exact ⟨_, _, rfl, inv.set_rb k b' (fun h => by rw [h2]; exact inv.rb_rc k b hb (by rw [← h1]; exact h))⟩
+    exact ⟨_, _, rfl, inv.set_rb k b' (fun h => by rw [h2, h3]; exact inv.simple.1 k b hb (by rw [← h1]; exact h))⟩
   · simp only [hh, Bool.not_false, if_true, skipR, pure_ok]
     exact ⟨_, _, rfl, inv⟩
 
@@ -446,15 +551,18 @@ theorem SInv.init (lines cols : Int) :
     · intro s hs; cases hs
   have hroot : ∃ r, LiveW ({ wins := #[({ rect := ⟨0, 0, lines, cols⟩, isRoot := true } : Win)], root := {} } : Tree) 0 r :=
     ⟨{ rect := ⟨0, 0, lines, cols⟩, isRoot := true }, by simp, rfl⟩
-  refine ⟨tinv, rfl, ?_, List.nodup_nil, by intro i hi; simp at hi, ?_, ⟨?_, ?_⟩, ?_, ?_, ?_, ?_⟩
+  refine ⟨⟨tinv, rfl, ?_, List.nodup_nil, by intro i hi; simp at hi, ?_, ⟨?_, ?_, ?_⟩, ?_, ?_, ?_, ?_⟩, ?_⟩
+  rotate_right
+  · intro i w hl; obtain ⟨rfl, rfl⟩ := hlive i w hl; show (1 : Int) ≤ ((1 : Nat) : Int); omega
   · intro i w hl; obtain ⟨_, rfl⟩ := hlive i w hl; show (1 : Int) ≤ 1; omega
   · intro i w h hf _; obtain ⟨_, rfl⟩ := hget i w h; cases hf
   · intro k p hk; simp at hk
   · intro k _; simp [holders]
+  · intro k p hk; simp at hk
   · intro _ _; rfl
   · intro _ h; exact absurd (.inl hroot) h
   · intro h; cases h
-  · intro k b hb; simp at hb
+  · exact ⟨by intro k b hb; simp at hb, by intro k b hb; simp at hb⟩
 
 theorem liftT_ok {st : St} {r : Out Tree} {t' : Tree} (h : r = .ok t') : liftT st r = .ok { st with tree := t' } := by
   unfold liftT; rw [h]; rfl
@@ -476,10 +584,8 @@ theorem step_plain_ok {cfg : Cfg} (R : Repaired cfg) {st : St} (inv : SInv st) (
     cases a <;> simp only [simpleOp]
     case unref w =>
       by_cases hh : heldW st w = true
-      · obtain ⟨ww, hw⟩ := heldW_live hh
-        simp only [hh, if_true]
-        have inv1 := inv.setX_same w { getX st w with appRefs := (getX st w).appRefs - 1 } rfl
-        obtain ⟨st', hu, inv'⟩ := unrefW_ok R inv1 (x := w) (xw := ww) (by simpa using hw)
+      · simp only [hh, if_true]
+        obtain ⟨st', hu, inv', _⟩ := unrefW_ok R inv hh
         simp only [okR, hu, bind_ok, pure_ok]
         exact ⟨_, _, rfl, inv'⟩
       · simp only [hh, Bool.false_eq_true, if_false, skipR, pure_ok]; exact ⟨_, _, rfl, inv⟩
@@ -487,8 +593,7 @@ theorem step_plain_ok {cfg : Cfg} (R : Repaired cfg) {st : St} (inv : SInv st) (
       by_cases hh : heldW st w = true
       · obtain ⟨ww, hw⟩ := heldW_live hh
         simp only [hh, if_true]
-        have inv1 := inv.setX_same w { getX st w with appRefs := (getX st w).appRefs + 1 } rfl
-        obtain ⟨st', hu, inv'⟩ := refW_ok inv1 (win := w) (ww := ww) (by simpa using hw)
+        obtain ⟨st', hu, inv'⟩ := refW_ok inv (win := w) (ww := ww) hw
         simp only [okR, hu, bind_ok, pure_ok]
         exact ⟨_, _, rfl, inv'⟩
       · simp only [hh, Bool.false_eq_true, if_false, skipR, pure_ok]; exact ⟨_, _, rfl, inv⟩
@@ -497,10 +602,8 @@ theorem step_plain_ok {cfg : Cfg} (R : Repaired cfg) {st : St} (inv : SInv st) (
       · obtain ⟨ww, hw⟩ := heldW_live hh
         simp only [hh, if_true]
         obtain ⟨t', hc, C⟩ := closeT_ok R.closePurges R.dragForgottenOnClose inv.tinv hw
-        have inv1 := inv.setX_same w { getX st w with detached := true } rfl
-        have := inv1.of_closed (win := w) (ww := ww) (t' := t') (by simpa using hw) (by simpa using C)
         simp only [okR, liftT_ok hc, bind_ok, pure_ok]
-        exact ⟨_, _, rfl, this⟩
+        exact ⟨_, _, rfl, inv.of_closed hw C⟩
       · simp only [hh, Bool.false_eq_true, if_false, skipR, pure_ok]; exact ⟨_, _, rfl, inv⟩
     case restack c w =>
       by_cases hh : (usableW st w && isRestack c) = true
@@ -511,7 +614,7 @@ theorem step_plain_ok {cfg : Cfg} (R : Repaired cfg) {st : St} (inv : SInv st) (
         simp only [okR, liftT_ok hq, bind_ok, pure_ok]
         refine ⟨_, _, rfl, inv.of_tree inv' (by rw [hwins]) ?_⟩
         intro i x hx
-        exact ⟨x, by rw [hwins]; exact hx, rfl, fun _ h => h⟩
+        exact ⟨x, by rw [hwins]; exact hx, rfl, fun _ => rfl⟩
       · simp only [hh, Bool.false_eq_true, if_false, skipR, pure_ok]; exact ⟨_, _, rfl, inv⟩
     case hide w =>
       by_cases hh : usableW st w = true
@@ -559,7 +662,7 @@ theorem step_plain_ok {cfg : Cfg} (R : Repaired cfg) {st : St} (inv : SInv st) (
       simp only [hu, Bool.not_true, Bool.false_eq_true, if_false]
       unfold bindEvent
       simp only [getW, get_live hw, bind_ok, pure_ok]
-      exact ⟨_, _, rfl, inv.setX_same w _ rfl⟩
+      exact ⟨_, _, rfl, inv.setX_same w _ rfl rfl⟩
     · simp only [hu, Bool.not_false, if_true, skipR, pure_ok]; exact ⟨_, _, rfl, inv⟩
   case unbind w id =>
     by_cases hu : usableW st w = true
@@ -568,10 +671,10 @@ theorem step_plain_ok {cfg : Cfg} (R : Repaired cfg) {st : St} (inv : SInv st) (
       unfold unbindEvent
       simp only [getW, get_live hw, bind_ok]
       split
-      · simp only [pure_ok, bind_ok]; exact ⟨_, _, rfl, inv.setX_same w _ rfl⟩
-      · simp only [pure_ok, bind_ok]; exact ⟨_, _, rfl, inv.setX_same w _ rfl⟩
+      · simp only [pure_ok, bind_ok]; exact ⟨_, _, rfl, inv.setX_same w _ rfl rfl⟩
+      · simp only [pure_ok, bind_ok]; exact ⟨_, _, rfl, inv.setX_same w _ rfl rfl⟩
     · simp only [hu, Bool.not_false, if_true, skipR, pure_ok]; exact ⟨_, _, rfl, inv⟩
-  case pen => exact ⟨_, _, rfl, pen_new_ok inv⟩
+  case pen => exact ⟨_, _, rfl, (pen_new_ok inv).set_penx _⟩
   case pref k =>
     by_cases hh : heldP st k = true
     · simp only [hh, Bool.not_true, Bool.false_eq_true, if_false]
@@ -582,13 +685,9 @@ theorem step_plain_ok {cfg : Cfg} (R : Repaired cfg) {st : St} (inv : SInv st) (
   case punref k =>
     by_cases hh : heldP st k = true
     · simp only [hh, Bool.not_true, Bool.false_eq_true, if_false]
-      obtain ⟨st', h1, inv'⟩ := punref_ok inv hh
+      obtain ⟨st', _, _, h1, inv', _⟩ := punref_ok inv hh
       simp only [okR, h1, bind_ok, pure_ok]
       exact ⟨_, _, rfl, inv'⟩
-    · simp only [hh, Bool.not_false, if_true, skipR, pure_ok]; exact ⟨_, _, rfl, inv⟩
-  case pset k =>
-    by_cases hh : heldP st k = true
-    · simp only [hh, Bool.not_true, Bool.false_eq_true, if_false, pure_ok]; exact ⟨_, _, rfl, inv⟩
     · simp only [hh, Bool.not_false, if_true, skipR, pure_ok]; exact ⟨_, _, rfl, inv⟩
   case setpen w p =>
     by_cases hu : usableW st w = true
@@ -614,47 +713,52 @@ theorem step_plain_ok {cfg : Cfg} (R : Repaired cfg) {st : St} (inv : SInv st) (
   case tunref =>
     by_cases hh : heldT st = true
     · simp only [hh, Bool.not_true, Bool.false_eq_true, if_false]
-      obtain ⟨st', h1, inv'⟩ := tunref_ok inv hh
+      obtain ⟨st', _, h1, inv', _⟩ := tunref_ok inv hh
       simp only [okR, h1, bind_ok, pure_ok]
       exact ⟨_, _, rfl, inv'⟩
     · simp only [hh, Bool.not_false, if_true, skipR, pure_ok]; exact ⟨_, _, rfl, inv⟩
-  case str bytes => exact ⟨_, _, rfl, inv.set_strs _⟩
+  case str bytes =>
+    refine ⟨_, _, rfl, ?_⟩
+    unfold strNew
+    refine inv.set_simple st.rbs _ ⟨inv.simple.1, ?_⟩
+    intro j b hb hf
+    simp only [Array.getElem?_push] at hb
+    split at hb
+    · cases hb; exact ⟨by show (1 : Int) ≤ 1; omega, by show (1 : Int) = ((1 : Nat) : Int); omega⟩
+    · exact inv.simple.2 j b hb hf
   case sref k =>
     by_cases hh : heldS st k = true
     · simp only [hh, Bool.not_true, Bool.false_eq_true, if_false]
-      unfold heldS at hh
-      cases hs : st.strs[k]? with
-      | none => simp [hs] at hh
-      | some s =>
-        simp only [hs, Bool.and_eq_true, Bool.not_eq_true'] at hh
-        have hlt : k < st.strs.size := by
-          by_cases hlt : k < st.strs.size
-          · exact hlt
-          · have := Array.getElem?_eq_none (xs := st.strs) (Nat.le_of_not_lt hlt)
-            rw [hs] at this; cases this
-        unfold strRef
-        simp only [okR, Option.getD_some, Array.getElem?_setIfInBounds, if_true, hlt, hh.1, Bool.false_eq_true, if_false,
-          pure_ok, bind_ok]
-        exact ⟨_, _, rfl, (inv.set_strs _).set_strs _⟩
+      obtain ⟨s, hs, hfs, hpos, hlt⟩ := heldS_spec hh
+      have hrc := inv.simple.2 k s hs hfs
+      unfold strRef
+      simp only [okR, hs, Option.getD_some, Array.getElem?_setIfInBounds, if_true, hlt, hfs, Bool.false_eq_true, if_false,
+        pure_ok, bind_ok]
+      refine ⟨_, _, rfl, ?_⟩
+      rw [Array.setIfInBounds_setIfInBounds]
+      refine inv.set_str k _ (fun _ => ⟨?_, ?_⟩)
+      · show 1 ≤ s.refcount + 1; omega
+      · show s.refcount + 1 = ((s.appRefs + 1 : Nat) : Int); omega
     · simp only [hh, Bool.not_false, if_true, skipR, pure_ok]; exact ⟨_, _, rfl, inv⟩
   case sunref k =>
     by_cases hh : heldS st k = true
     · simp only [hh, Bool.not_true, Bool.false_eq_true, if_false]
-      unfold heldS at hh
-      cases hs : st.strs[k]? with
-      | none => simp [hs] at hh
-      | some s =>
-        simp only [hs, Bool.and_eq_true, Bool.not_eq_true'] at hh
-        have hlt : k < st.strs.size := by
-          by_cases hlt : k < st.strs.size
-          · exact hlt
-          · have := Array.getElem?_eq_none (xs := st.strs) (Nat.le_of_not_lt hlt)
-            rw [hs] at this; cases this
-        unfold strUnref
-        simp only [okR, Option.getD_some, Array.getElem?_setIfInBounds, if_true, hlt, hh.1, Bool.false_eq_true, if_false]
-        split
-        · simp only [pure_ok, bind_ok]; exact ⟨_, _, rfl, (inv.set_strs _).set_strs _⟩
-        · simp only [pure_ok, bind_ok]; exact ⟨_, _, rfl, (inv.set_strs _).set_strs _⟩
+      obtain ⟨s, hs, hfs, hpos, hlt⟩ := heldS_spec hh
+      have hrc := inv.simple.2 k s hs hfs
+      unfold strUnref
+      simp only [okR, hs, Option.getD_some, Array.getElem?_setIfInBounds, if_true, hlt, hfs, Bool.false_eq_true, if_false]
+      split
+      · rename_i hgt
+        simp only [pure_ok, bind_ok]
+        refine ⟨_, _, rfl, ?_⟩
+        rw [Array.setIfInBounds_setIfInBounds]
+        refine inv.set_str k _ (fun _ => ⟨?_, ?_⟩)
+        · show 1 ≤ s.refcount - 1; omega
+        · show s.refcount - 1 = ((s.appRefs - 1 : Nat) : Int); omega
+      · simp only [pure_ok, bind_ok]
+        refine ⟨_, _, rfl, ?_⟩
+        rw [Array.setIfInBounds_setIfInBounds]
+        exact inv.set_str k _ (fun h => by cases h)
     · simp only [hh, Bool.not_false, if_true, skipR, pure_ok]; exact ⟨_, _, rfl, inv⟩
   case sget k =>
     by_cases hh : heldS st k = true
@@ -663,13 +767,12 @@ theorem step_plain_ok {cfg : Cfg} (R : Repaired cfg) {st : St} (inv : SInv st) (
   case rb lines cols =>
     refine ⟨_, _, rfl, ?_⟩
     unfold rbNew
-    refine ⟨inv.tinv, inv.wx_size, inv.rc, List.nodup_nil, by intro i hi; simp at hi, inv.dead_pen,
-      ⟨inv.pens.rc, inv.pens.ex⟩, inv.term_held, inv.term_free, inv.term_dead, ?_⟩
+    refine inv.set_simple _ st.strs ⟨?_, inv.simple.2⟩
     intro j b hb hf
     simp only [Array.getElem?_push] at hb
     split at hb
-    · cases hb; show (1 : Int) ≤ 1; omega
-    · exact inv.rb_rc j b hb hf
+    · cases hb; exact ⟨by show (1 : Int) ≤ 1; omega, by show (1 : Int) = ((1 : Nat) : Int); omega⟩
+    · exact inv.simple.1 j b hb hf
   case bref k =>
     by_cases hh : heldB st k = true
     · obtain ⟨b, hb, hfb⟩ := heldB_spec hh
@@ -683,7 +786,10 @@ theorem step_plain_ok {cfg : Cfg} (R : Repaired cfg) {st : St} (inv : SInv st) (
       simp only [okR, Array.getElem?_setIfInBounds, if_true, hlt, hfb, Bool.false_eq_true, if_false, pure_ok, bind_ok]
       refine ⟨_, _, rfl, ?_⟩
       rw [Array.setIfInBounds_setIfInBounds]
-      exact inv.set_rb k _ (fun _ => by have := inv.rb_rc k b hb hfb; show 1 ≤ b.refcount + 1; omega)
+      have hrc := inv.simple.1 k b hb hfb
+      refine inv.set_rb k _ (fun _ => ⟨?_, ?_⟩)
+      · show 1 ≤ b.refcount + 1; omega
+      · show b.refcount + 1 = ((b.appRefs + 1 : Nat) : Int); omega
     · simp only [hh, Bool.not_false, if_true, skipR, pure_ok]; exact ⟨_, _, rfl, inv⟩
   case bunref k =>
     by_cases hh : heldB st k = true
@@ -703,16 +809,19 @@ theorem step_plain_ok {cfg : Cfg} (R : Repaired cfg) {st : St} (inv : SInv st) (
       rw [Array.setIfInBounds_setIfInBounds]
       refine inv.set_rb k _ ?_
       intro hf'
+      have hrc := (inv.simple.1 k b hb hfb).2
+      have hpos := heldB_pos hh hb
       by_cases hz : b.refcount - 1 = 0
       · simp [hz] at hf'
       · simp only [hz, if_false]
-        show 1 ≤ b.refcount - 1
-        omega
+        refine ⟨?_, ?_⟩
+        · show 1 ≤ b.refcount - 1; omega
+        · show b.refcount - 1 = ((b.appRefs - 1 : Nat) : Int); omega
     · simp only [hh, Bool.not_false, if_true, skipR, pure_ok]; exact ⟨_, _, rfl, inv⟩
-  case breset k => exact rbUpd_ok inv k _ (fun b => ⟨_, rfl, rfl, rfl⟩)
-  case bsave k => exact rbUpd_ok inv k _ (fun b => ⟨_, rfl, rfl, rfl⟩)
-  case bsavepen k => exact rbUpd_ok inv k _ (fun b => ⟨_, rfl, rfl, rfl⟩)
-  case brestore k => exact rbUpd_ok inv k _ (fun b => ⟨_, rfl, rfl, rfl⟩)
+  case breset k => exact rbUpd_ok inv k _ (fun b => ⟨_, rfl, rfl, rfl, rfl⟩)
+  case bsave k => exact rbUpd_ok inv k _ (fun b => ⟨_, rfl, rfl, rfl, rfl⟩)
+  case bsavepen k => exact rbUpd_ok inv k _ (fun b => ⟨_, rfl, rfl, rfl, rfl⟩)
+  case brestore k => exact rbUpd_ok inv k _ (fun b => ⟨_, rfl, rfl, rfl, rfl⟩)
   case bsetpen k p =>
     by_cases hh : heldB st k = true
     · simp only [hh, Bool.not_true, Bool.false_eq_true, if_false]
@@ -728,7 +837,7 @@ theorem step_plain_ok {cfg : Cfg} (R : Repaired cfg) {st : St} (inv : SInv st) (
     · simp only [hh, Bool.not_true, Bool.false_eq_true, if_false]
       by_cases ht : heldT st = true
       · simp only [ht, Bool.not_true, Bool.false_eq_true, if_false]
-        exact rbUpd_ok inv k _ (fun b => ⟨_, rfl, rfl, rfl⟩)
+        exact rbUpd_ok inv k _ (fun b => ⟨_, rfl, rfl, rfl, rfl⟩)
       · simp only [ht, Bool.not_false, if_true, skipR, pure_ok]; exact ⟨_, _, rfl, inv⟩
     · simp only [hh, Bool.not_false, if_true, skipR, pure_ok]; exact ⟨_, _, rfl, inv⟩
   case bcell k line col len =>
@@ -776,116 +885,409 @@ open WinTree (Id Win Req Change Tree)
 
 /-! ## dropping everything (`end`) -/
 
-theorem foldlM_inv {α : Type} (f : St → α → Out St) (h : ∀ (st : St) (a : α), SInv st → ∃ st', f st a = .ok st' ∧ SInv st') :
-    ∀ (l : List α) (st : St), SInv st → ∃ st', l.foldlM f st = .ok st' ∧ SInv st'
-  | [], st, inv => ⟨st, rfl, inv⟩
-  | a :: rest, st, inv => by
-    obtain ⟨st1, h1, inv1⟩ := h st a inv
-    obtain ⟨st2, h2, inv2⟩ := foldlM_inv f h rest st1 inv1
-    exact ⟨st2, by rw [List.foldlM_cons, h1]; exact h2, inv2⟩
+/-- A fold over the handles of one kind: `I` is kept, and every handle visited ends up in the state `D`. -/
+theorem foldlM_phase {α : Type} (f : St → α → Out St) (I : St → Prop) (D : α → St → Prop)
+    (hstep : ∀ (st : St) (a : α), I st → ∃ st', f st a = .ok st' ∧ I st' ∧ D a st' ∧ ∀ b, D b st → D b st') :
+    ∀ (l : List α) (st : St), I st →
+      ∃ st', l.foldlM f st = .ok st' ∧ I st' ∧ (∀ a ∈ l, D a st') ∧ ∀ b, D b st → D b st'
+  | [], st, hi => ⟨st, rfl, hi, by intro a ha; simp at ha, fun _ h => h⟩
+  | a :: rest, st, hi => by
+    obtain ⟨st1, h1, i1, d1, p1⟩ := hstep st a hi
+    obtain ⟨st2, h2, i2, d2, p2⟩ := foldlM_phase f I D hstep rest st1 i1
+    refine ⟨st2, by rw [List.foldlM_cons, h1]; exact h2, i2, ?_, fun b h => p2 b (p1 b h)⟩
+    intro b hb
+    simp only [List.mem_cons] at hb
+    rcases hb with rfl | hb
+    · exact p2 _ d1
+    · exact d2 b hb
 
-theorem dropW_ok {cfg : Cfg} (R : Repaired cfg) (i : Nat) : ∀ (n : Nat) (st : St), SInv st →
-    ∃ st', dropAll.dropW cfg n st i = .ok st' ∧ SInv st'
-  | 0, st, inv => ⟨st, rfl, inv⟩
-  | n + 1, st, inv => by
+/-- What stays true of the windows while the application drops its references: the tree keeps its size and what
+    was freed stays freed. -/
+structure WLater (st st' : St) : Prop where
+  size : st'.tree.wins.size = st.tree.wins.size
+  freed : ∀ (i : Nat) (w : Win), st.tree.wins[i]? = some w → w.freed = true →
+    ∃ w', st'.tree.wins[i]? = some w' ∧ w'.freed = true
+
+theorem WLater.refl (st : St) : WLater st st := ⟨rfl, fun _ w h hf => ⟨w, h, hf⟩⟩
+
+theorem WLater.trans {a b c : St} (h1 : WLater a b) (h2 : WLater b c) : WLater a c :=
+  ⟨h2.size.trans h1.size, fun i w hw hf => by
+    obtain ⟨w', hw', hf'⟩ := h1.freed i w hw hf
+    exact h2.freed i w' hw' hf'⟩
+
+/-- A window the application no longer holds is gone (or out of range), and stays so. -/
+theorem not_heldW_later {st st' : St} (inv : SInv st) (L : WLater st st') {b : Nat} (h : heldW st b = false) :
+    heldW st' b = false := by
+  cases hb' : heldW st' b with
+  | false => rfl
+  | true =>
+    exfalso
+    obtain ⟨w', hl', _⟩ := heldW_spec hb'
+    have hlt : b < st.tree.wins.size := by have := hl'.lt; rw [L.size] at this; exact this
+    cases hw : st.tree.wins[b]? with
+    | none =>
+      have := Array.getElem?_eq_getElem (xs := st.tree.wins) hlt
+      rw [hw] at this; cases this
+    | some w =>
+      cases hf : w.freed with
+      | true =>
+        obtain ⟨w'', hw'', hf''⟩ := L.freed b w hw hf
+        rw [hl'.1] at hw''; cases hw''
+        rw [hl'.2] at hf''; cases hf''
+      | false =>
+        unfold heldW at h
+        simp only [hw, hf, Bool.not_false, Bool.true_and, decide_eq_false_iff_not, Nat.not_lt, Nat.le_zero_eq] at h
+        have h1 := inv.wref b w ⟨hw, hf⟩
+        have h2 := inv.rc b w ⟨hw, hf⟩
+        rw [h] at h1
+        omega
+
+theorem dropW_ok {cfg : Cfg} (R : Repaired cfg) (i : Nat) : ∀ (n : Nat) (st : St), SInv st → (getX st i).appRefs < n →
+    ∃ st', dropAll.dropW cfg n st i = .ok st' ∧ SInv st' ∧ WLater st st' ∧ heldW st' i = false
+  | 0, _, _, h => absurd h (Nat.not_lt_zero _)
+  | n + 1, st, inv, h => by
     unfold dropAll.dropW
     by_cases hh : heldW st i = true
-    · obtain ⟨ww, hw⟩ := heldW_live hh
-      simp only [hh, if_true]
-      have inv1 := inv.setX_same i { getX st i with appRefs := (getX st i).appRefs - 1 } rfl
-      obtain ⟨st1, hu, inv2⟩ := unrefW_ok R inv1 (x := i) (xw := ww) (by simpa using hw)
+    · simp only [hh, if_true]
+      obtain ⟨st1, hu, inv1, hsz, hfr, hle⟩ := unrefW_ok R inv hh
       simp only [hu, bind_ok]
-      exact dropW_ok R i n st1 inv2
-    · simp only [hh, Bool.false_eq_true, if_false, pure_ok]; exact ⟨st, rfl, inv⟩
+      obtain ⟨st2, h2, inv2, L2, hd⟩ := dropW_ok R i n st1 inv1 (by omega)
+      exact ⟨st2, h2, inv2, WLater.trans ⟨hsz, hfr⟩ L2, hd⟩
+    · simp only [hh, Bool.false_eq_true, if_false, pure_ok]
+      exact ⟨st, rfl, inv, WLater.refl st, by simpa using hh⟩
 
-theorem dropP_ok (k : Nat) : ∀ (n : Nat) (st : St), SInv st → ∃ st', dropAll.dropP n st k = .ok st' ∧ SInv st'
-  | 0, st, inv => ⟨st, rfl, inv⟩
-  | n + 1, st, inv => by
+theorem dropP_ok (k : Nat) : ∀ (n : Nat) (st : St), SInv st → (st.pens[k]?.getD {}).appRefs < n →
+    ∃ st' ps, dropAll.dropP n st k = .ok st' ∧ SInv st' ∧ heldP st' k = false ∧ st' = { st with pens := ps } ∧
+      ps.size = st.pens.size ∧ (∀ (j : Nat), j ≠ k → ps[j]? = st.pens[j]?) ∧ (heldP st k = false → ps = st.pens)
+  | 0, _, _, h => absurd h (Nat.not_lt_zero _)
+  | n + 1, st, inv, h => by
     unfold dropAll.dropP
     by_cases hh : heldP st k = true
     · simp only [hh, if_true]
-      obtain ⟨st1, hu, inv1⟩ := punref_ok inv hh
+      obtain ⟨st1, p, p', hu, inv1, hp, he, ha⟩ := punref_ok inv hh
       simp only [hu, bind_ok]
-      exact dropP_ok k n st1 inv1
-    · simp only [hh, Bool.false_eq_true, if_false, pure_ok]; exact ⟨st, rfl, inv⟩
+      have hlt := pens_size_lt hp
+      have hk1 : st1.pens[k]? = some p' := by rw [he]; simp [hlt]
+      obtain ⟨st2, ps, h2, inv2, hd, he2, hsz2, ho2, _⟩ := dropP_ok k n st1 inv1 (by
+        rw [hk1, Option.getD_some]; rw [hp, Option.getD_some] at h; omega)
+      refine ⟨st2, ps, h2, inv2, hd, by rw [he2, he], by rw [hsz2, he]; simp, ?_, fun h' => by cases h'⟩
+      intro j hj
+      rw [ho2 j hj, he]
+      simp only [Array.getElem?_setIfInBounds]
+      have : ¬ k = j := fun h' => hj h'.symm
+      simp [this]
+    · simp only [hh, Bool.false_eq_true, if_false, pure_ok]
+      exact ⟨st, st.pens, rfl, inv, by simpa using hh, rfl, rfl, fun _ _ => rfl, fun _ => rfl⟩
 
-theorem dropS_ok (k : Nat) : ∀ (n : Nat) (st : St), SInv st → ∃ st', dropAll.dropS n st k = .ok st' ∧ SInv st'
-  | 0, st, inv => ⟨st, rfl, inv⟩
-  | n + 1, st, inv => by
+/-- `tickit_string_unref` by the application. -/
+theorem sunref_ok {st : St} (inv : SInv st) {k : Nat} (h : heldS st k = true) :
+    ∃ st' s s', strUnref { st with strs := st.strs.setIfInBounds k { (st.strs[k]?.getD {}) with appRefs := (st.strs[k]?.getD {}).appRefs - 1 } } k = .ok st' ∧
+      SInv st' ∧ st.strs[k]? = some s ∧ st' = { st with strs := st.strs.setIfInBounds k s' } ∧ s'.appRefs + 1 = s.appRefs := by
+  obtain ⟨s, hs, hfs, hpos, hlt⟩ := heldS_spec h
+  have hrc := inv.simple.2 k s hs hfs
+  unfold strUnref
+  simp only [hs, Option.getD_some, Array.getElem?_setIfInBounds, if_true, hlt, hfs, Bool.false_eq_true, if_false]
+  split
+  · rename_i hgt
+    simp only [pure_ok]
+    refine ⟨_, s, _, rfl, ?_, rfl, by rw [Array.setIfInBounds_setIfInBounds], by show s.appRefs - 1 + 1 = s.appRefs; omega⟩
+    rw [Array.setIfInBounds_setIfInBounds]
+    refine inv.set_str k _ (fun _ => ⟨?_, ?_⟩)
+    · show 1 ≤ s.refcount - 1; omega
+    · show s.refcount - 1 = ((s.appRefs - 1 : Nat) : Int); omega
+  · simp only [pure_ok]
+    refine ⟨_, s, _, rfl, ?_, rfl, by rw [Array.setIfInBounds_setIfInBounds], by show s.appRefs - 1 + 1 = s.appRefs; omega⟩
+    rw [Array.setIfInBounds_setIfInBounds]
+    exact inv.set_str k _ (fun h => by cases h)
+
+theorem strs_size_lt {st : St} {k : Nat} {s : StrObj} (h : st.strs[k]? = some s) : k < st.strs.size := by
+  by_cases hlt : k < st.strs.size
+  · exact hlt
+  · have := Array.getElem?_eq_none (xs := st.strs) (Nat.le_of_not_lt hlt)
+    rw [h] at this; cases this
+
+theorem dropS_ok (k : Nat) : ∀ (n : Nat) (st : St), SInv st → (st.strs[k]?.getD {}).appRefs < n →
+    ∃ st' ss, dropAll.dropS n st k = .ok st' ∧ SInv st' ∧ heldS st' k = false ∧ st' = { st with strs := ss } ∧
+      ss.size = st.strs.size ∧ (∀ (j : Nat), j ≠ k → ss[j]? = st.strs[j]?) ∧ (heldS st k = false → ss = st.strs)
+  | 0, _, _, h => absurd h (Nat.not_lt_zero _)
+  | n + 1, st, inv, h => by
     unfold dropAll.dropS
     by_cases hh : heldS st k = true
     · simp only [hh, if_true]
-      unfold heldS at hh
-      cases hs : st.strs[k]? with
-      | none => simp [hs] at hh
-      | some s =>
-        simp only [hs, Bool.and_eq_true, Bool.not_eq_true'] at hh
-        have hlt : k < st.strs.size := by
-          by_cases hlt : k < st.strs.size
-          · exact hlt
-          · have := Array.getElem?_eq_none (xs := st.strs) (Nat.le_of_not_lt hlt)
-            rw [hs] at this; cases this
-        unfold strUnref
-        simp only [Option.getD_some, Array.getElem?_setIfInBounds, if_true, hlt, hh.1, Bool.false_eq_true, if_false]
-        split
-        · simp only [pure_ok, bind_ok]; exact dropS_ok k n _ ((inv.set_strs _).set_strs _)
-        · simp only [pure_ok, bind_ok]; exact dropS_ok k n _ ((inv.set_strs _).set_strs _)
-    · simp only [hh, Bool.false_eq_true, if_false, pure_ok]; exact ⟨st, rfl, inv⟩
+      obtain ⟨st1, p, p', hu, inv1, hp, he, ha⟩ := sunref_ok inv hh
+      simp only [hu, bind_ok]
+      have hlt := strs_size_lt hp
+      have hk1 : st1.strs[k]? = some p' := by rw [he]; simp [hlt]
+      obtain ⟨st2, ps, h2, inv2, hd, he2, hsz2, ho2, _⟩ := dropS_ok k n st1 inv1 (by
+        rw [hk1, Option.getD_some]; rw [hp, Option.getD_some] at h; omega)
+      refine ⟨st2, ps, h2, inv2, hd, by rw [he2, he], by rw [hsz2, he]; simp, ?_, fun h' => by cases h'⟩
+      intro j hj
+      rw [ho2 j hj, he]
+      simp only [Array.getElem?_setIfInBounds]
+      have : ¬ k = j := fun h' => hj h'.symm
+      simp [this]
+    · simp only [hh, Bool.false_eq_true, if_false, pure_ok]
+      exact ⟨st, st.strs, rfl, inv, by simpa using hh, rfl, rfl, fun _ _ => rfl, fun _ => rfl⟩
 
-theorem dropB_ok (k : Nat) : ∀ (n : Nat) (st : St), SInv st → ∃ st', dropAll.dropB n st k = .ok st' ∧ SInv st'
-  | 0, st, inv => ⟨st, rfl, inv⟩
-  | n + 1, st, inv => by
+theorem rbs_size_lt {st : St} {k : Nat} {b : RBObj} (h : st.rbs[k]? = some b) : k < st.rbs.size := by
+  by_cases hlt : k < st.rbs.size
+  · exact hlt
+  · have := Array.getElem?_eq_none (xs := st.rbs) (Nat.le_of_not_lt hlt)
+    rw [h] at this; cases this
+
+/-- `tickit_renderbuffer_unref` by the application. -/
+theorem bunref_ok {st : St} (inv : SInv st) {k : Nat} (h : heldB st k = true) :
+    ∃ st' b b', rbUnref { st with rbs := st.rbs.setIfInBounds k { (st.rbs[k]?.getD {}) with appRefs := (st.rbs[k]?.getD {}).appRefs - 1 } } k = .ok st' ∧
+      SInv st' ∧ st.rbs[k]? = some b ∧ st' = { st with rbs := st.rbs.setIfInBounds k b' } ∧ b'.appRefs + 1 = b.appRefs := by
+  obtain ⟨b, hb, hfb⟩ := heldB_spec h
+  have hpos := heldB_pos h hb
+  have hlt := rbs_size_lt hb
+  have hrc := inv.simple.1 k b hb hfb
+  unfold rbUnref
+  simp only [hb, Option.getD_some, Array.getElem?_setIfInBounds, if_true, hlt, hfb, Bool.false_eq_true, if_false]
+  have hge : ¬ b.refcount < 1 := by omega
+  simp only [hge, if_false, pure_ok]
+  refine ⟨_, b, _, rfl, ?_, rfl, by rw [Array.setIfInBounds_setIfInBounds], ?_⟩
+  · rw [Array.setIfInBounds_setIfInBounds]
+    refine inv.set_rb k _ ?_
+    intro hf'
+    by_cases hz : b.refcount - 1 = 0
+    · simp [hz] at hf'
+    · simp only [hz, if_false]
+      refine ⟨?_, ?_⟩
+      · show 1 ≤ b.refcount - 1; omega
+      · show b.refcount - 1 = ((b.appRefs - 1 : Nat) : Int); omega
+  · by_cases hz : b.refcount - 1 = 0
+    · simp only [hz, if_true]; show b.appRefs - 1 + 1 = b.appRefs; omega
+    · simp only [hz, if_false]; show b.appRefs - 1 + 1 = b.appRefs; omega
+
+theorem dropB_ok (k : Nat) : ∀ (n : Nat) (st : St), SInv st → (st.rbs[k]?.getD {}).appRefs < n →
+    ∃ st' bs, dropAll.dropB n st k = .ok st' ∧ SInv st' ∧ heldB st' k = false ∧ st' = { st with rbs := bs } ∧
+      bs.size = st.rbs.size ∧ (∀ (j : Nat), j ≠ k → bs[j]? = st.rbs[j]?) ∧ (heldB st k = false → bs = st.rbs)
+  | 0, _, _, h => absurd h (Nat.not_lt_zero _)
+  | n + 1, st, inv, h => by
     unfold dropAll.dropB
     by_cases hh : heldB st k = true
-    · obtain ⟨b, hb, hfb⟩ := heldB_spec hh
-      have hlt : k < st.rbs.size := by
-        by_cases hlt : k < st.rbs.size
-        · exact hlt
-        · have := Array.getElem?_eq_none (xs := st.rbs) (Nat.le_of_not_lt hlt)
-          rw [hb] at this; cases this
-      have hr := inv.rb_rc k b hb hfb
-      simp only [hh, if_true, hb, Option.getD_some]
-      unfold rbUnref
-      simp only [Array.getElem?_setIfInBounds, if_true, hlt, hfb, Bool.false_eq_true, if_false]
-      have hge : ¬ b.refcount < 1 := by omega
-      simp only [hge, if_false, pure_ok, bind_ok]
-      rw [Array.setIfInBounds_setIfInBounds]
-      refine dropB_ok k n _ (inv.set_rb k _ ?_)
-      intro hf'
-      by_cases hz : b.refcount - 1 = 0
-      · simp [hz] at hf'
-      · simp only [hz, if_false]
-        show 1 ≤ b.refcount - 1
-        omega
-    · simp only [hh, Bool.false_eq_true, if_false, pure_ok]; exact ⟨st, rfl, inv⟩
+    · simp only [hh, if_true]
+      obtain ⟨st1, p, p', hu, inv1, hp, he, ha⟩ := bunref_ok inv hh
+      simp only [hu, bind_ok]
+      have hlt := rbs_size_lt hp
+      have hk1 : st1.rbs[k]? = some p' := by rw [he]; simp [hlt]
+      obtain ⟨st2, ps, h2, inv2, hd, he2, hsz2, ho2, _⟩ := dropB_ok k n st1 inv1 (by
+        rw [hk1, Option.getD_some]; rw [hp, Option.getD_some] at h; omega)
+      refine ⟨st2, ps, h2, inv2, hd, by rw [he2, he], by rw [hsz2, he]; simp, ?_, fun h' => by cases h'⟩
+      intro j hj
+      rw [ho2 j hj, he]
+      simp only [Array.getElem?_setIfInBounds]
+      have : ¬ k = j := fun h' => hj h'.symm
+      simp [this]
+    · simp only [hh, Bool.false_eq_true, if_false, pure_ok]
+      exact ⟨st, st.rbs, rfl, inv, by simpa using hh, rfl, rfl, fun _ _ => rfl, fun _ => rfl⟩
 
-theorem dropT_ok : ∀ (n : Nat) (st : St), SInv st → ∃ st', dropAll.dropT n st = .ok st' ∧ SInv st'
-  | 0, st, inv => ⟨st, rfl, inv⟩
-  | n + 1, st, inv => by
+theorem dropT_ok : ∀ (n : Nat) (st : St), SInv st → st.term.appRefs < n →
+    ∃ st' tm, dropAll.dropT n st = .ok st' ∧ SInv st' ∧ heldT st' = false ∧ st' = { st with term := tm }
+  | 0, _, _, h => absurd h (Nat.not_lt_zero _)
+  | n + 1, st, inv, h => by
     unfold dropAll.dropT
     by_cases hh : heldT st = true
     · simp only [hh, if_true]
-      obtain ⟨st1, hu, inv1⟩ := tunref_ok inv hh
+      obtain ⟨st1, tm, hu, inv1, he, ha⟩ := tunref_ok inv hh
       simp only [hu, bind_ok]
-      exact dropT_ok n st1 inv1
-    · simp only [hh, Bool.false_eq_true, if_false, pure_ok]; exact ⟨st, rfl, inv⟩
+      obtain ⟨st2, tm2, h2, inv2, hd, he2⟩ := dropT_ok n st1 inv1 (by rw [he]; show tm.appRefs < n; omega)
+      exact ⟨st2, tm2, h2, inv2, hd, by rw [he2, he]⟩
+    · simp only [hh, Bool.false_eq_true, if_false, pure_ok]
+      exact ⟨st, st.term, rfl, inv, by simpa using hh, rfl⟩
 
-/-- Dropping every reference the application holds never fails. -/
+/-- The application holds nothing any more. -/
+structure NoneHeld (st : St) : Prop where
+  w : ∀ (i : Nat), heldW st i = false
+  p : ∀ (k : Nat), heldP st k = false
+  s : ∀ (k : Nat), heldS st k = false
+  b : ∀ (k : Nat), heldB st k = false
+  t : heldT st = false
+
+theorem mem_range_reverse {n i : Nat} (h : i < n) : i ∈ (List.range n).reverse := by
+  simp [h]
+
+/-- Dropping every reference the application holds never fails, and afterwards it holds nothing. -/
 theorem dropAll_ok {cfg : Cfg} (R : Repaired cfg) {st : St} (inv : SInv st) :
-    ∃ st', dropAll cfg st = .ok st' ∧ SInv st' := by
+    ∃ st', dropAll cfg st = .ok st' ∧ SInv st' ∧ NoneHeld st' := by
   unfold dropAll
-  obtain ⟨s1, h1, i1⟩ := foldlM_inv (fun st i => dropAll.dropW cfg ((getX st i).appRefs + 1) st i)
-    (fun st i inv => dropW_ok R i _ st inv) (List.range st.tree.wins.size).reverse st inv
+  -- windows, from the highest handle down to the root
+  obtain ⟨s1, h1, ⟨i1, z1⟩, d1, _⟩ := foldlM_phase (fun st i => dropAll.dropW cfg ((getX st i).appRefs + 1) st i)
+    (fun s => SInv s ∧ s.tree.wins.size = st.tree.wins.size) (fun i s => heldW s i = false)
+    (fun s i hi => by
+      obtain ⟨s', hs', inv', L, hd⟩ := dropW_ok R i _ s hi.1 (Nat.lt_succ_self _)
+      exact ⟨s', hs', ⟨inv', L.size.trans hi.2⟩, hd, fun b hb => not_heldW_later hi.1 L hb⟩)
+    (List.range st.tree.wins.size).reverse st ⟨inv, rfl⟩
   simp only [h1, bind_ok]
-  obtain ⟨s2, h2, i2⟩ := foldlM_inv (fun st k => dropAll.dropP ((st.pens[k]?.getD {}).appRefs + 1) st k)
-    (fun st k inv => dropP_ok k _ st inv) (List.range s1.pens.size).reverse s1 i1
+  have W1 : ∀ (i : Nat), heldW s1 i = false := by
+    intro i
+    by_cases hi : i < st.tree.wins.size
+    · exact d1 i (mem_range_reverse hi)
+    · unfold heldW
+      rw [Array.getElem?_eq_none (by rw [z1]; exact Nat.le_of_not_lt hi)]
+  -- pens
+  obtain ⟨s2, h2, ⟨i2, w2, z2⟩, d2, _⟩ := foldlM_phase (fun st k => dropAll.dropP ((st.pens[k]?.getD {}).appRefs + 1) st k)
+    (fun s => SInv s ∧ (∀ (i : Nat), heldW s i = false) ∧ s.pens.size = s1.pens.size) (fun k s => heldP s k = false)
+    (fun s k hi => by
+      obtain ⟨s', ps, hs', inv', hd, he, hsz, ho, hsame⟩ := dropP_ok k _ s hi.1 (Nat.lt_succ_self _)
+      refine ⟨s', hs', ⟨inv', fun i => by rw [he]; exact hi.2.1 i, by rw [he]; exact hsz.trans hi.2.2⟩, hd, ?_⟩
+      intro b hb
+      by_cases hbk : b = k
+      · subst hbk; exact hd
+      · rw [he]; unfold heldP at hb ⊢; simp only; rw [ho b hbk]; exact hb)
+    (List.range s1.pens.size).reverse s1 ⟨i1, W1, rfl⟩
   simp only [h2, bind_ok]
-  obtain ⟨s3, h3, i3⟩ := foldlM_inv (fun st k => dropAll.dropS ((st.strs[k]?.getD {}).appRefs + 1) st k)
-    (fun st k inv => dropS_ok k _ st inv) (List.range s2.strs.size).reverse s2 i2
+  have P2 : ∀ (k : Nat), heldP s2 k = false := by
+    intro k
+    by_cases hk : k < s1.pens.size
+    · exact d2 k (mem_range_reverse hk)
+    · unfold heldP
+      rw [Array.getElem?_eq_none (by rw [z2]; exact Nat.le_of_not_lt hk)]
+  -- strings
+  obtain ⟨s3, h3, ⟨i3, w3, p3, z3⟩, d3, _⟩ := foldlM_phase (fun st k => dropAll.dropS ((st.strs[k]?.getD {}).appRefs + 1) st k)
+    (fun s => SInv s ∧ (∀ (i : Nat), heldW s i = false) ∧ (∀ (k : Nat), heldP s k = false) ∧ s.strs.size = s2.strs.size)
+    (fun k s => heldS s k = false)
+    (fun s k hi => by
+      obtain ⟨s', ps, hs', inv', hd, he, hsz, ho, hsame⟩ := dropS_ok k _ s hi.1 (Nat.lt_succ_self _)
+      refine ⟨s', hs', ⟨inv', fun i => by rw [he]; exact hi.2.1 i, fun i => by rw [he]; exact hi.2.2.1 i,
+        by rw [he]; exact hsz.trans hi.2.2.2⟩, hd, ?_⟩
+      intro b hb
+      by_cases hbk : b = k
+      · subst hbk; exact hd
+      · rw [he]; unfold heldS at hb ⊢; simp only; rw [ho b hbk]; exact hb)
+    (List.range s2.strs.size).reverse s2 ⟨i2, w2, P2, rfl⟩
   simp only [h3, bind_ok]
-  obtain ⟨s4, h4, i4⟩ := foldlM_inv (fun st k => dropAll.dropB ((st.rbs[k]?.getD {}).appRefs + 1) st k)
-    (fun st k inv => dropB_ok k _ st inv) (List.range s3.rbs.size).reverse s3 i3
+  have S3 : ∀ (k : Nat), heldS s3 k = false := by
+    intro k
+    by_cases hk : k < s2.strs.size
+    · exact d3 k (mem_range_reverse hk)
+    · unfold heldS
+      rw [Array.getElem?_eq_none (by rw [z3]; exact Nat.le_of_not_lt hk)]
+  -- render buffers
+  obtain ⟨s4, h4, ⟨i4, w4, p4, q4, z4⟩, d4, _⟩ := foldlM_phase (fun st k => dropAll.dropB ((st.rbs[k]?.getD {}).appRefs + 1) st k)
+    (fun s => SInv s ∧ (∀ (i : Nat), heldW s i = false) ∧ (∀ (k : Nat), heldP s k = false) ∧ (∀ (k : Nat), heldS s k = false) ∧
+      s.rbs.size = s3.rbs.size)
+    (fun k s => heldB s k = false)
+    (fun s k hi => by
+      obtain ⟨s', ps, hs', inv', hd, he, hsz, ho, hsame⟩ := dropB_ok k _ s hi.1 (Nat.lt_succ_self _)
+      refine ⟨s', hs', ⟨inv', fun i => by rw [he]; exact hi.2.1 i, fun i => by rw [he]; exact hi.2.2.1 i,
+        fun i => by rw [he]; exact hi.2.2.2.1 i, by rw [he]; exact hsz.trans hi.2.2.2.2⟩, hd, ?_⟩
+      intro b hb
+      by_cases hbk : b = k
+      · subst hbk; exact hd
+      · rw [he]; unfold heldB at hb ⊢; simp only; rw [ho b hbk]; exact hb)
+    (List.range s3.rbs.size).reverse s3 ⟨i3, w3, p3, S3, rfl⟩
   simp only [h4, bind_ok]
-  exact dropT_ok _ s4 i4
+  have B4 : ∀ (k : Nat), heldB s4 k = false := by
+    intro k
+    by_cases hk : k < s3.rbs.size
+    · exact d4 k (mem_range_reverse hk)
+    · unfold heldB
+      rw [Array.getElem?_eq_none (by rw [z4]; exact Nat.le_of_not_lt hk)]
+  -- the terminal
+  obtain ⟨s5, tm, h5, i5, hd, he⟩ := dropT_ok _ s4 i4 (Nat.lt_succ_self _)
+  exact ⟨s5, h5, i5, ⟨fun i => by rw [he]; exact w4 i, fun k => by rw [he]; exact p4 k, fun k => by rw [he]; exact q4 k,
+    fun k => by rw [he]; exact B4 k, hd⟩⟩
+
+/-- Once the application holds nothing, nothing is left: every window, pen, string, buffer and the terminal is freed
+    and no request is queued. -/
+theorem nothing_left {st : St} (inv : SInv st) (H : NoneHeld st) : anythingLeft st = false := by
+  -- every window is freed
+  have hw : ∀ (i : Nat) (w : Win), st.tree.wins[i]? = some w → w.freed = true := by
+    intro i w hw
+    cases hf : w.freed with
+    | true => rfl
+    | false =>
+      exfalso
+      have h1 := inv.rc i w ⟨hw, hf⟩
+      have h2 := inv.wref i w ⟨hw, hf⟩
+      have h3 := H.w i
+      unfold heldW at h3
+      simp only [hw, hf, Bool.not_false, Bool.true_and, decide_eq_false_iff_not, Nat.not_lt, Nat.le_zero_eq] at h3
+      rw [h3] at h2
+      omega
+  -- so no window holds a pen
+  have hh : ∀ (k : Nat), holders st k = 0 := by
+    intro k
+    unfold holders
+    rw [List.length_eq_zero_iff, List.filter_eq_nil_iff]
+    intro x hx
+    obtain ⟨i, hi, rfl⟩ := List.getElem_of_mem hx
+    have hi' : i < st.wx.size := by simpa using hi
+    have hlt : i < st.tree.wins.size := by rw [← inv.wx_size]; exact hi'
+    have hwi := Array.getElem?_eq_getElem (xs := st.tree.wins) hlt
+    have := inv.dead_pen i _ hwi (hw i _ hwi) (by simp)
+    rw [getX_of_lt hi'] at this
+    simp [this]
+  have hroot : ¬ ((∃ r, LiveW st.tree 0 r) ∨ 0 ∈ ([] : List Nat)) := by
+    rintro (⟨r, hr⟩ | h)
+    · have := hw 0 r hr.1; rw [hr.2] at this; cases this
+    · simp at h
+  unfold anythingLeft
+  simp only [Bool.or_eq_false_iff, Bool.not_eq_false', List.isEmpty_iff]
+  refine ⟨⟨⟨⟨⟨?_, ?_⟩, ?_⟩, ?_⟩, ?_⟩, ?_⟩
+  · rw [Array.any_eq_false]
+    intro i hi
+    have := hw i _ (Array.getElem?_eq_getElem hi)
+    simp [this]
+  · rw [Array.any_eq_false]
+    intro k hk
+    have hp := Array.getElem?_eq_getElem (xs := st.pens) hk
+    cases hf : (st.pens[k]).freed with
+    | true => simp
+    | false =>
+      exfalso
+      have h1 := (inv.pens.rc k _ hp).1 hf
+      have h2 := inv.pens.pos k _ hp hf
+      have h3 := H.p k
+      unfold heldP at h3
+      simp only [hp, hf, Bool.not_false, Bool.true_and, decide_eq_false_iff_not, Nat.not_lt, Nat.le_zero_eq] at h3
+      rw [hh k, h3] at h1
+      omega
+  · rw [Array.any_eq_false]
+    intro k hk
+    have hp := Array.getElem?_eq_getElem (xs := st.strs) hk
+    cases hf : (st.strs[k]).freed with
+    | true => simp
+    | false =>
+      exfalso
+      have h1 := inv.simple.2 k _ hp hf
+      have h3 := H.s k
+      unfold heldS at h3
+      simp only [hp, hf, Bool.not_false, Bool.true_and, decide_eq_false_iff_not, Nat.not_lt, Nat.le_zero_eq] at h3
+      rw [h3] at h1
+      omega
+  · rw [Array.any_eq_false]
+    intro k hk
+    have hp := Array.getElem?_eq_getElem (xs := st.rbs) hk
+    cases hf : (st.rbs[k]).freed with
+    | true => simp
+    | false =>
+      exfalso
+      have h1 := inv.simple.1 k _ hp hf
+      have h3 := H.b k
+      unfold heldB at h3
+      simp only [hp, hf, Bool.not_false, Bool.true_and, decide_eq_false_iff_not, Nat.not_lt, Nat.le_zero_eq] at h3
+      rw [h3] at h1
+      omega
+  · cases hf : st.term.freed with
+    | true => rfl
+    | false =>
+      exfalso
+      have h1 := inv.term_free hf hroot
+      have h3 := H.t
+      unfold heldT at h3
+      simp only [hf, Bool.not_false, Bool.true_and, decide_eq_false_iff_not, Nat.not_lt, Nat.le_zero_eq] at h3
+      rw [h3] at h1
+      omega
+  · cases hc : st.tree.root.changes with
+    | nil => rfl
+    | cons r rest =>
+      exfalso
+      obtain ⟨_, w, hlw, _, _⟩ := inv.tinv.req_ok r (by rw [hc]; simp)
+      have := hw r.win w hlw.1
+      rw [hlw.2] at this; cases this
 
 end Tickit.Life
